@@ -87,7 +87,58 @@ func (pe *peval) run(fn *ssa.Function, args []aval, depth int) []poutcome {
 				}
 			case *ssa.ChangeType:
 				fr.env[x] = val(x.X)
+			case *ssa.Field:
+				// a field of an entry of a package-level table of records, loaded as a whole (l := layouts[e]; l.max)
+				if ld, ok := x.X.(*ssa.UnOp); ok && ld.Op == token.MUL {
+					if ia, ok := ld.X.(*ssa.IndexAddr); ok {
+						if g, ok := ia.X.(*ssa.Global); ok {
+							if idx := val(ia.Index); idx.isConst() {
+								if k, ok := globalRecordEntry(g, idx.k, x.Field); ok {
+									fr.env[x] = aval{known: true, k: k}
+								}
+							}
+						}
+					}
+				}
 			case *ssa.UnOp:
+				// a field of an entry of a package-level table of records (layouts[e].offset)
+				if x.Op == token.MUL {
+					if fa, ok := x.X.(*ssa.FieldAddr); ok {
+						// ... copied to a local first (l := layouts[e]; l.max)
+						if al, ok := fa.X.(*ssa.Alloc); ok {
+							var only *ssa.Store
+							n := 0
+							for _, r := range *al.Referrers() {
+								if st, ok := r.(*ssa.Store); ok && st.Addr == ssa.Value(al) {
+									only = st
+									n++
+								}
+							}
+							if n == 1 {
+								if ld, ok := only.Val.(*ssa.UnOp); ok && ld.Op == token.MUL {
+									if ia, ok := ld.X.(*ssa.IndexAddr); ok {
+										if g, ok := ia.X.(*ssa.Global); ok {
+											if idx := val(ia.Index); idx.isConst() {
+												if k, ok := globalRecordEntry(g, idx.k, fa.Field); ok {
+													fr.env[x] = aval{known: true, k: k}
+												}
+											}
+										}
+									}
+								}
+							}
+						}
+						if ia, ok := fa.X.(*ssa.IndexAddr); ok {
+							if g, ok := ia.X.(*ssa.Global); ok {
+								if idx := val(ia.Index); idx.isConst() {
+									if k, ok := globalRecordEntry(g, idx.k, fa.Field); ok {
+										fr.env[x] = aval{known: true, k: k}
+									}
+								}
+							}
+						}
+					}
+				}
 				// an entry of a package-level table of constants at a known subscript (encodingOffsets[e])
 				if x.Op == token.MUL {
 					if ia, ok := x.X.(*ssa.IndexAddr); ok {
@@ -336,4 +387,162 @@ func globalTableEntry(g *ssa.Global, k int64) (int64, bool) {
 		return 0, false
 	}
 	return val, true || found
+}
+
+// globalRecordEntry: the constant in field f of entry k of a package-level
+// array of records written as a composite literal of constants. go/ssa builds
+// such a literal in locals (one per record, one for the array) and stores the
+// array into the global as a whole, or (x/tools v0.29) stores each field in place at &g[i].f; entries or fields the literal leaves out
+// are zero. Anything computed makes the table unreadable.
+func globalRecordEntry(g *ssa.Global, k int64, f int) (int64, bool) {
+	if g.Pkg == nil {
+		return 0, false
+	}
+	init := g.Pkg.Func("init")
+	if init == nil {
+		return 0, false
+	}
+	// the array the global is assigned from
+	var arr *ssa.Alloc
+	nWhole := 0
+	for _, b := range init.Blocks {
+		for _, ins := range b.Instrs {
+			st, ok := ins.(*ssa.Store)
+			if !ok || st.Addr != ssa.Value(g) {
+				continue
+			}
+			nWhole++
+			if ld, ok := st.Val.(*ssa.UnOp); ok && ld.Op == token.MUL {
+				arr, _ = ld.X.(*ssa.Alloc)
+			}
+		}
+	}
+	if nWhole == 0 {
+		// the literal is built in place: stores to &g[i].f
+		val, stored := int64(0), false
+		for _, b := range init.Blocks {
+			for _, ins := range b.Instrs {
+				st, ok := ins.(*ssa.Store)
+				if !ok {
+					continue
+				}
+				fa, ok := st.Addr.(*ssa.FieldAddr)
+				if !ok {
+					if ia, ok := st.Addr.(*ssa.IndexAddr); ok && ia.X == ssa.Value(g) {
+						return 0, false // an entry stored as a whole
+					}
+					continue
+				}
+				ia, ok := fa.X.(*ssa.IndexAddr)
+				if !ok || ia.X != ssa.Value(g) {
+					continue
+				}
+				i, okI := constIntVal(ia.Index)
+				v, okV := constIntVal(st.Val)
+				if !okI || !okV {
+					return 0, false
+				}
+				stored = true
+				if i == k && fa.Field == f {
+					val = v
+				}
+			}
+		}
+		if !stored || storedOutsideInit(g, init) {
+			return 0, false
+		}
+		return val, true
+	}
+	if nWhole != 1 || arr == nil {
+		return 0, false
+	}
+	if storedOutsideInit(g, init) {
+		return 0, false
+	}
+	var rec *ssa.Alloc
+	for _, r := range *arr.Referrers() {
+		ia, ok := r.(*ssa.IndexAddr)
+		if !ok {
+			continue
+		}
+		i, okI := constIntVal(ia.Index)
+		if !okI {
+			return 0, false
+		}
+		for _, rr := range *ia.Referrers() {
+			st, ok := rr.(*ssa.Store)
+			if !ok || st.Addr != ssa.Value(ia) {
+				return 0, false
+			}
+			ld, ok := st.Val.(*ssa.UnOp)
+			if !ok || ld.Op != token.MUL {
+				return 0, false
+			}
+			a, ok := ld.X.(*ssa.Alloc)
+			if !ok {
+				return 0, false
+			}
+			if i == k {
+				rec = a
+			}
+		}
+	}
+	if rec == nil {
+		return 0, true // an entry the literal leaves out
+	}
+	val, found := int64(0), false
+	for _, r := range *rec.Referrers() {
+		fa, ok := r.(*ssa.FieldAddr)
+		if !ok {
+			continue
+		}
+		for _, rr := range *fa.Referrers() {
+			st, ok := rr.(*ssa.Store)
+			if !ok || st.Addr != ssa.Value(fa) {
+				return 0, false
+			}
+			v, okV := constIntVal(st.Val)
+			if !okV {
+				return 0, false
+			}
+			if fa.Field == f {
+				if found {
+					return 0, false
+				}
+				val, found = v, true
+			}
+		}
+	}
+	return val, true
+}
+
+// storedOutsideInit: some function of the package other than its initialiser writes into g.
+func storedOutsideInit(g *ssa.Global, init *ssa.Function) bool {
+	for _, m := range g.Pkg.Members {
+		fn, ok := m.(*ssa.Function)
+		if !ok || fn == init {
+			continue
+		}
+		for _, b := range fn.Blocks {
+			for _, ins := range b.Instrs {
+				st, ok := ins.(*ssa.Store)
+				if !ok {
+					continue
+				}
+				root := st.Addr
+				for i := 0; i < 4; i++ {
+					switch x := root.(type) {
+					case *ssa.FieldAddr:
+						root = x.X
+					case *ssa.IndexAddr:
+						root = x.X
+					}
+				}
+				if root == ssa.Value(g) {
+					return true
+				}
+			}
+		}
+	}
+	return false
 }
